@@ -1,4 +1,5 @@
 #!/bin/bash
+export ZSIM_STRICT_DETERMINISM=1
 # Determinism protocol (DESIGN 7.1): for every property, the first N cases of every stratum are
 # executed twice in separate processes, once in forward and once in reverse order (so every case
 # runs at a different position in its batch, after different predecessors); the sorted
